@@ -112,7 +112,28 @@ fn drive_shared(mut it: Iter<'_, Tracked>, sel: &[Obs], script: &[Step]) -> R<()
                     return Err("fold() visited a different sequence".to_string());
                 }
             }
-            Step::Skip(_) | Step::StepBy(_) => {}
+            Step::Skip(k) | Step::StepBy(k) => {
+                // adaptors built on nth(): skip(k) / step_by(k + 1) over a copy of the iterator, forwards and backwards
+                let k = *k as usize;
+                let rem = &sel[lo..hi];
+                let skip = matches!(st, Step::Skip(_));
+                let want: Vec<&Obs> = if skip { rem.iter().skip(k).collect() } else { rem.iter().step_by(k + 1).collect() };
+                let got: Vec<&Tracked> = if skip { it.clone().skip(k).collect() } else { it.clone().step_by(k + 1).collect() };
+                if got.len() != want.len() {
+                    return Err(format!("{st:?} over the remaining {} elements yields {} elements, expected {}", rem.len(), got.len(), want.len()));
+                }
+                for (g, w) in got.iter().zip(want.iter()) {
+                    chk(if skip { "skip()" } else { "step_by()" }, Some(*g), Some(*w))?;
+                }
+                let want_r: Vec<&Obs> = if skip { rem.iter().skip(k).rev().collect() } else { rem.iter().step_by(k + 1).rev().collect() };
+                let got_r: Vec<&Tracked> = if skip { it.clone().skip(k).rev().collect() } else { it.clone().step_by(k + 1).rev().collect() };
+                if got_r.len() != want_r.len() {
+                    return Err(format!("{st:?}.rev() over the remaining {} elements yields {} elements, expected {}", rem.len(), got_r.len(), want_r.len()));
+                }
+                for (g, w) in got_r.iter().zip(want_r.iter()) {
+                    chk(if skip { "skip().rev()" } else { "step_by().rev()" }, Some(*g), Some(*w))?;
+                }
+            }
             Step::FindMid | Step::RFindMid => {
                 if lo < hi {
                     let mid = lo + (hi - lo) / 2;
@@ -385,7 +406,22 @@ fn drive_mut(mut it: IterMut<'_, Tracked>, sel: &[Obs], script: &[Step], mut new
                     }
                 }
             }
-            Step::Fork | Step::Skip(_) | Step::StepBy(_) | Step::Search => {}
+            Step::Skip(k) | Step::StepBy(k) => {
+                // consumes the mutable iterator through the adaptor; every element it yields is written to
+                let k = *k as usize;
+                let skip = matches!(st, Step::Skip(_));
+                let idxs: Vec<usize> = if skip { (lo..hi).skip(k).collect() } else { (lo..hi).step_by(k + 1).collect() };
+                let got: Vec<&mut Tracked> = if skip { it.skip(k).collect() } else { it.step_by(k + 1).collect() };
+                if got.len() != idxs.len() {
+                    return Err(format!("{st:?} over the remaining {} elements yields {} elements, expected {}", hi - lo, got.len(), idxs.len()));
+                }
+                for (t, i) in got.into_iter().zip(idxs) {
+                    chk(if skip { "skip()" } else { "step_by()" }, Some(&*t), Some(&sel[i]))?;
+                    wr(t, i, &mut writes, &mut seen)?;
+                }
+                return Ok(writes);
+            }
+            Step::Fork | Step::Search => {}
         }
     }
     len_chk("iterator", it.len(), it.size_hint(), hi - lo)?;
